@@ -795,19 +795,19 @@ def run_case(ctx, case):
 
 def run(ctx):
     rng = ctx.rng
-    for case in scripted_api() + [gen_api(rng) for _ in range(ctx.scale(750, 18000))]:
+    for case in scripted_api() + [gen_api(rng) for _ in range(ctx.scale(750, 12000))]:
         nt = run_api(ctx, case)
         ctx.note_case(('api', json.dumps(case, sort_keys=True, default=str)), nontrivial=nt,
                       sample=dict(kind='api', keep=keep_form(case['keep']), templates=case['templates'], store=case['store'],
                                   ops=[o[:2] for o in case['ops']][:5]))
         ctx.count('api')
-    run_registry(ctx, scripted_registry() + [gen_registry(rng) for _ in range(ctx.scale(450, 12000))])
-    for case in scripted_fill() + [gen_fill(rng) for _ in range(ctx.scale(550, 14000))]:
+    run_registry(ctx, scripted_registry() + [gen_registry(rng) for _ in range(ctx.scale(450, 8000))])
+    for case in scripted_fill() + [gen_fill(rng) for _ in range(ctx.scale(550, 9000))]:
         nt = run_fill(ctx, case)
         ctx.note_case(('fill', json.dumps(case, sort_keys=True, default=str)), nontrivial=nt,
                       sample=dict(kind='fill', parts=[x['state'][:2] for x in case['parts']], props=case['props']))
         ctx.count('fill')
-    for case in [gen_v4delay(rng) for _ in range(ctx.scale(250, 6000))]:
+    for case in [gen_v4delay(rng) for _ in range(ctx.scale(250, 4000))]:
         nt = run_v4delay(ctx, case)
         ctx.note_case(('v4delay', json.dumps(case, sort_keys=True, default=str)), nontrivial=nt,
                       sample=dict(kind='v4delay', nupdates=len(case['ups']), ndumps=len(case['ts']), ops=case['ops']))
